@@ -245,9 +245,9 @@ Proof. exact skip_read_equals_full_context_v2. Qed.
 Print Assumptions C08_skip_read_equals_full_context_v2.
 
 Example C08_ctx_v2_ok_examples :
-  ctx_v2_ok (mkGeom 8 2 53 4 false true 1 27 32 true 2 53) /\
-  ctx_v2_ok (mkGeom 12 2 80 4 false true 1 40 48 true 2 80) /\
-  ctx_v2_ok (mkGeom 2 2 7 2 false true 1 4 4 true 1 4).
+  ctx_v2_ok (mkGeom 8 2 53 4 false true 1 27 32 true 2 53 false false false false) /\
+  ctx_v2_ok (mkGeom 12 2 80 4 false true 1 40 48 true 2 80 false false false false) /\
+  ctx_v2_ok (mkGeom 2 2 7 2 false true 1 4 4 true 1 4 false false false false).
 Proof.
   destruct ctx_v2_ok_examples as (A & B & C).
   exact (conj (ctx_v2_okb_sound _ A) (conj (ctx_v2_okb_sound _ B) (ctx_v2_okb_sound _ C))).
